@@ -2,7 +2,9 @@ package datadog
 
 import (
 	"errors"
+	"fmt"
 	"io"
+	"net/http"
 	"strings"
 	"time"
 
@@ -71,8 +73,15 @@ func (cfg *Config) NewForwarder(parentLogger logger.Logger, args base.ChunkConsu
 
 //nolint:revive
 func (cfg *Config) VerifyConfig(schema base.LogSchema) error {
+	if _, err := schema.CreateFieldLocators(cfg.Serialization.HiddenFields); err != nil {
+		return fmt.Errorf(".serialization.hiddenFields%w", err)
+	}
+
 	if len(cfg.Upstream.Address) == 0 {
 		return errors.New("expected a valid datadog api address")
+	}
+	if _, err := http.NewRequest(http.MethodPost, cfg.Upstream.Address, nil); err != nil {
+		return fmt.Errorf(".upstream.address is invalid: %w", err)
 	}
 
 	if cfg.Upstream.HTTPTimeout == 0 {
